@@ -35,7 +35,7 @@ import signal
 import struct
 import time
 
-WATCHDOG_S = float(os.environ.get('VERIF_C09_WATCHDOG', '10'))
+WATCHDOG_S = float(os.environ.get('VERIF_C09_WATCHDOG', '6'))
 CONCURRENCY = int(os.environ.get('VERIF_C09_JOBS', '12'))
 
 
